@@ -328,6 +328,13 @@ async def _main(case, obs, loop, net):
                     ev["t"] = loop._vtime
                     obs.events.append(ev)
                     continue
+                if kind == "reassign":
+                    # manual assignment made again (same partitions): the partition states are new, the start rule
+                    # applies again
+                    consumer.assign(tps)
+                    ev.update({"op": "assigned", "manual": True, "tps": sorted(tpk(*x) for x in tps), "t": loop._vtime})
+                    obs.events.append(ev)
+                    continue
                 if kind == "trim":
                     tp = tps[op[1] % len(tps)]
                     pl = c.log(tp.topic, tp.partition)
